@@ -712,7 +712,28 @@ func exprOf(d any) ast.Expr {
 // calls Start only once the consumer's listeners are attached.
 func readerStartedByConsumer(c *core.Ctx, R string) {
 	c.Rule(R, "listener-before-reader (typestate): the reader goroutine of a websocket / webtransport transport (`go w.message()`) is started only inside a sync.Once of its Start method — never by Construct; the registered builders return transports that wait for Start (NewDeferred…), the self-starting NewWebSocket / NewWebTransport are for code outside the engine; Start is called (a) by baseServer.Handshake, deferred or after Emit(\"connection\"), on the path to its successful return, and (b) by socket.MaybeUpgrade after the attempt's listeners (packet, close and error of the candidate, close of the session) are registered, on the edge where the session is not closed — a frame read earlier is emitted to no listener and lost (first message of a session that starts on websocket; the probe of an upgrade)")
-	// (1) who starts a reader
+	// (1) who starts a reader: the function a Start method hands to its sync.Once (a literal, or a method value)
+	onceBodies := map[*core.Unit]bool{}
+	for _, k := range []string{"transports.(*websocket).Start", "transports.(*webTransport).Start"} {
+		st := c.Fn(R, k)
+		if st == nil {
+			continue
+		}
+		for _, dc := range st.Calls() {
+			if dc.Name != "Do" || dc.Recv == nil || core.TypeName(st.Info().TypeOf(dc.Recv)) != "Once" || dc.Inlined != nil {
+				continue
+			}
+			if k := closureArg(st, dc, 0); k != nil {
+				onceBodies[k] = true
+			} else if se, isS := ast.Unparen(dc.Arg(0)).(*ast.SelectorExpr); isS {
+				if f, _ := st.Info().Uses[se.Sel].(*types.Func); f != nil {
+					if h := c.P.UnitOf(f); h != nil {
+						onceBodies[h] = true
+					}
+				}
+			}
+		}
+	}
 	n := 0
 	for _, u := range c.P.Units {
 		for _, cl := range u.Calls() {
@@ -721,17 +742,7 @@ func readerStartedByConsumer(c *core.Ctx, R string) {
 			}
 			n++
 			c.Touch(u)
-			root := u.Root().Key
-			inStart := root == "transports.(*websocket).Start" || root == "transports.(*webTransport).Start"
-			once := false
-			if u != u.Root() {
-				for _, dc := range u.Root().Calls() {
-					if dc.Name == "Do" && dc.Recv != nil && core.TypeName(u.Info().TypeOf(dc.Recv)) == "Once" && closureArg(u.Root(), dc, 0) == u {
-						once = true
-					}
-				}
-			}
-			c.Check(R, keyf("%s/go-message-only-in-Start-once", root), cl.Pos(), inStart && once, keyf("started by the transport's Start: %v; inside its sync.Once: %v (a constructor that starts the reader does so before any consumer can listen)", inStart, once))
+			c.Check(R, keyf("%s/go-message-only-in-Start-once", u.Root().Key), cl.Pos(), onceBodies[u], "the reader is started by the function its transport's Start hands to a sync.Once (a constructor that starts the reader does so before any consumer can listen)")
 		}
 	}
 	c.Need(R, "reader goroutine starts (go message())", n, 2)
